@@ -50,3 +50,9 @@ Proof.
   - destruct j; [congruence|reflexivity].
   - destruct j; [reflexivity|]. cbn. apply IHk. congruence.
 Qed.
+
+Lemma skipn_skipn' {A} (m : nat) : forall n (l : list A), skipn n (skipn m l) = skipn (m + n) l.
+Proof.
+  induction m as [|m IH]; intros n l; cbn; [reflexivity|].
+  destruct l as [|a l]; [destruct n; reflexivity|]. apply IH.
+Qed.
